@@ -28,14 +28,15 @@ var recStart = time.Now()
 var maxEvents = 400000 * vsup.EnvInt("VERIF_ROUNDS", 1)
 
 type recorder struct {
-	mu    sync.Mutex
-	tr    *vsup.Trace
-	seq   int
-	ids   map[any]int // *conn -> handle id (never recycled: the map keeps the pointer alive)
-	nid   int
-	rep   *vsup.Report
-	muted bool
-	efds  sync.Map // eventfd descriptors of the open pollers (from the p.open / p.close hooks)
+	mu       sync.Mutex
+	tr       *vsup.Trace
+	seq      int
+	ids      map[any]int // *conn -> handle id (never recycled: the map keeps the pointer alive)
+	nid      int
+	rep      *vsup.Report
+	muted    bool
+	errSites sync.Map // "site/errclass" of the failed system calls seen since it was last cleared
+	efds     sync.Map // eventfd descriptors of the open pollers (from the p.open / p.close hooks)
 	// descriptors grabbed right after the framework closed them (see grab)
 	gmu     sync.Mutex
 	held    []grabbed
@@ -153,6 +154,9 @@ func (r *recorder) install() {
 				r.efds.Delete(b)
 			}
 			r.emit("Sys", "site", site, "h", r.handle(obj), "fd", a, "n", b, "err", errClass(err), "g", vsup.Goid())
+			if err != nil {
+				r.errSites.Store(site+"/"+errClass(err), true)
+			}
 			if site == "el.close" && err == nil {
 				r.grab(a)
 			}
